@@ -1,6 +1,6 @@
 SPECIFICATION Spec
 CONSTANTS
-  P = {1}
+  P = {1, 2}
   D = {1}
   MaxCrashes = 2
   MaxDepth = 14
